@@ -28,6 +28,7 @@ pub fn gen(seed: u64, _tier: Tier) -> ScenarioSpec {
         10 => [4, 0, rng.below(256) as u8],
         11..=12 => [3, rng.range(10, 30) as u8, rng.below(3) as u8],
         13 => [3, rng.range(14, 16) as u8, 0],
+        14 => [3, rng.range(0, 2) as u8, rng.below(3) as u8],
         _ => [rng.below(256) as u8, rng.below(256) as u8, rng.below(256) as u8],
     };
     let version = if version[0] == 0 && version[1] == 0 { [0, 1, version[2]] } else { version };
@@ -43,6 +44,12 @@ pub fn gen(seed: u64, _tier: Tier) -> ScenarioSpec {
             rec.extras.trailing.insert(crate::layout::CODE_END, 1 + rng.below(8) as u16);
         }
         rec.extras.trailing_pseed = rng.next_u64();
+    }
+    // "every game": a Gecko list in a 3.0-3.2 game is outside the recorder envelope but is a game the
+    // reader produces and both writers must judge by its version alone
+    if crate::layout::gte(vv, (3, 0)) && !crate::layout::gte(vv, (3, 3)) && rng.chance(1, 3) {
+        rec.force_gecko = true;
+        rec.gecko = Some(GeckoSpec { len: 1 + rng.below(1500) as u32, pseed: rng.next_u64() });
     }
     let mut spec = gen::base_spec(P, "S1", seed, rec);
     spec.compression = *rng.pick(&[Compression::None, Compression::Lz4, Compression::Zstd]);
@@ -60,6 +67,7 @@ pub fn run(spec: &ScenarioSpec, ctx: &mut Ctx) -> Result<(), Violation> {
     ctx.probe_if(ver == (3, 16, 0), "exactly 3.16.0");
     ctx.probe_if(ver.0 == 3 && ver.1 == 16 && ver.2 > 0, "3.16.patch>0");
     ctx.probe_if(ver.0 > 3, "other major");
+    ctx.probe_if(spec.recorder.force_gecko && m.gecko.is_some(), "Gecko list in a 3.0-3.2 game");
     ctx.probe_if(!spec.recorder.extras.trailing.is_empty() && !newer, "longer Game Start/End block at or below the ceiling");
     ctx.shape("trailing", spec.recorder.extras.trailing.len() as u64);
     let Some(game) = s1_read(P, spec, &m, ctx, false)? else { return Ok(()) };
